@@ -43,9 +43,12 @@ Proof. unfold safe_commits, handle_complete_workflow. destruct (is_complete _); 
 Lemma safe_cancel_workflow s id : safe_commits (h_commits (handle_cancel_workflow s id)).
 Proof. unfold safe_commits, handle_cancel_workflow. destruct (is_complete _); unfold ok; cbn [h_commits]; safe. Qed.
 
+Lemma safe_op_adds l : forallb safe_op (map OAdd l) = true.
+Proof. induction l; simpl; auto. Qed.
+
 Lemma safe_skip_stage s id i : safe_commits (h_commits (handle_skip_stage s id i)).
-Proof. unfold safe_commits, handle_skip_stage. destruct (get_stage s i); [|safe]. destruct (negb _); unfold ok; cbn [h_commits]; safe.
-  destruct (downstream s i); safe. Qed.
+Proof. unfold safe_commits, handle_skip_stage. destruct (get_stage s i) as [st|]; [|safe]. destruct (negb _); unfold ok; cbn [h_commits]; safe.
+  destruct (downstream s i); safe. destruct (y_owner (s_syn st)); [destruct (y_parent (s_syn st))|]; reflexivity. Qed.
 
 Lemma safe_cancel_stage s id i : safe_commits (h_commits (handle_cancel_stage s id i)).
 Proof. unfold safe_commits, handle_cancel_stage. destruct (get_stage s i); [|safe]. destruct (negb _); [safe|].
@@ -88,18 +91,64 @@ Proof.
   destruct (s_join dst); try constructor; destruct (mem_nat i (s_branches dst)); constructor; try constructor; reflexivity.
 Qed.
 
+Lemma safe_up_msg st : safe_msg (up_msg st) = true.
+Proof. unfold up_msg. destruct (y_owner (s_syn st)); [destruct (y_parent (s_syn st))|]; reflexivity. Qed.
+
+Lemma safe_next_msgs st ds : forallb safe_msg (next_msgs st ds) = true.
+Proof.
+  unfold next_msgs. destruct ds as [|d ds]; [|apply safe_downstream_msgs].
+  destruct (y_owner (s_syn st)); [destruct (y_parent (s_syn st))|]; reflexivity.
+Qed.
+
+Lemma safe_put_adds_pushes i st adds id ms :
+  forallb safe_msg ms = true ->
+  forallb safe_op (txn [c_put i st; map OAdd adds; c_mark id; c_pushes ms]) = true.
+Proof.
+  intros H. cbn [txn concat app c_put c_mark forallb safe_op]. rewrite safe_app, safe_op_adds. simpl.
+  rewrite app_nil_r. apply safe_pushes. exact H.
+Qed.
+
 Lemma safe_complete_stage s id i : safe_commits (h_commits (handle_complete_stage s id i)).
 Proof.
   unfold safe_commits, handle_complete_stage. destruct (get_stage s i) as [st|]; [|safe].
   destruct (status_eqb _ NOT_STARTED); [unfold ok; cbn [h_commits]; safe|].
-  destruct (negb _). { destruct (is_halt _); unfold ok; cbn [h_commits]; safe. }
+  destruct (negb _).
+  { destruct (is_halt _); unfold ok; cbn [h_commits]; [|safe]. constructor; [|constructor].
+    cbn [txn concat app c_mark c_push forallb safe_op]. rewrite safe_up_msg. reflexivity. }
+  match goal with |- context [if ?c then ok [txn [c_put i (st_touch st); _; _; _]] else _] => destruct c end.
+  { unfold ok; cbn [h_commits]. constructor; [|constructor]. apply safe_put_adds_pushes. apply safe_map. reflexivity. }
+  match goal with |- context [if ?c then ok [c_mark id] else _] => destruct c end; [unfold ok; cbn [h_commits]; safe|].
+  match goal with |- context [if ?c then ok [txn [c_put i (st_touch (with_onfail st true)); _; _; _]] else _] => destruct c end.
+  { unfold ok; cbn [h_commits]. constructor; [|constructor]. apply safe_put_adds_pushes. apply safe_map. reflexivity. }
   match goal with |- context [status_eqb ?x RUNNING] => destruct (status_eqb x RUNNING) end; [unfold ok; cbn [h_commits]; safe|].
   destruct (negb _); [safe|].
   destruct (_ || _ || _); unfold ok; cbn [h_commits].
   - apply Forall_app. split; [apply safe_join_tracking|]. constructor; [|constructor].
     cbn [txn concat app c_put c_mark forallb safe_op]. rewrite app_nil_r.
-    rewrite safe_pushes by apply safe_downstream_msgs. reflexivity.
-  - safe.
+    rewrite safe_pushes by apply safe_next_msgs. reflexivity.
+  - constructor; [|constructor]. cbn [txn concat app c_put c_push forallb safe_op]. rewrite safe_up_msg. reflexivity.
+Qed.
+
+Lemma safe_first_msgs s i st : forallb safe_msg (first_msgs s i st) = true.
+Proof.
+  unfold first_msgs.
+  destruct (_ ++ _); [|apply safe_map; reflexivity].
+  destruct (planned_tasks st); [|reflexivity].
+  destruct (filter _ _); [reflexivity|apply safe_map; reflexivity].
+Qed.
+
+Lemma safe_continue_parent s id i o k : safe_commits (h_commits (handle_continue_parent s id i o k)).
+Proof.
+  unfold safe_commits, handle_continue_parent. destruct (get_stage s i) as [st|]; [|safe].
+  destruct (existsb _ _). { destruct (negb _); unfold ok, raised; cbn [h_commits]; safe. }
+  destruct (negb _).
+  { destruct (_ <=? _)%Z; [destruct (negb _)|]; unfold ok, raised; cbn [h_commits]; safe. }
+  destruct o; [|unfold ok; cbn [h_commits]; safe].
+  destruct (s_tasks st); [|unfold ok; cbn [h_commits]; safe].
+  destruct (filter (initial_at s) _); [unfold ok; cbn [h_commits]; safe|].
+  destruct (filter _ (_ :: _)); unfold ok; cbn [h_commits]; [safe|].
+  constructor; [|constructor]. cbn [txn concat app c_mark forallb safe_op]. rewrite app_nil_r.
+  apply safe_pushes. apply safe_map. reflexivity.
 Qed.
 
 Lemma safe_start_stage s id i k : safe_commits (h_commits (handle_start_stage s id i k)).
@@ -119,8 +168,7 @@ Proof.
     + apply Forall_app. split.
       * match goal with |- context [match ?c with Some _ => _ | None => [] end] => destruct c end; [|constructor].
         induction (siblings_not_started _ _ _); simpl; constructor; auto.
-      * constructor; [|constructor]. cbn [txn concat app c_put c_mark forallb safe_op]. rewrite app_nil_r.
-        rewrite safe_pushes; [reflexivity|]. unfold first_msgs. destruct (s_tasks _); reflexivity.
+      * constructor; [|constructor]. apply safe_put_adds_pushes. apply safe_first_msgs.
   - destruct (start_stage_late _); [safe|]. destruct (start_stage_waits _ _); [safe|].
     destruct (wait_exhausted _ _); [destruct (can_transition _ _)|]; unfold ok; cbn [h_commits]; safe.
   - unfold ok; cbn [h_commits]; safe.
@@ -191,6 +239,7 @@ Proof.
   - apply safe_signal.
   - apply safe_pause_task.
   - apply safe_resume_stage.
+  - apply safe_continue_parent.
 Qed.
 
 Lemma find_row_in s id r : find_row s id = Some r -> In r (w_queue s).
@@ -221,7 +270,8 @@ Proof.
     destruct (get_stage s i) as [st|]; [|reflexivity]. unfold recover_stage.
     destruct (status_eqb (s_status st) RUNNING).
     - match goal with |- context [match ?x with [] => _ | _ :: _ => _ end] => destruct x as [|a la] eqn:E end.
-      + match goal with |- context [match ?x with [] => _ | _ :: _ => _ end] => destruct x end; [reflexivity|].
+      + destruct (negb _ && existsb _ (kids s i OwnBefore)); [reflexivity|].
+        match goal with |- context [match ?x with [] => _ | _ :: _ => _ end] => destruct x end; [reflexivity|].
         destruct (_ && _); [destruct (has_pending_for_task _ _ _)|]; reflexivity.
       + clear E. generalize (a :: la). intros l0. induction l0 as [|t0 l0 IH0]; simpl; [reflexivity|].
         rewrite forallb_app, IH0, andb_true_r. destruct (has_pending_for_task _ _ _); reflexivity.
